@@ -25,7 +25,7 @@ def twin_of(case):
 
 
 def is_faulty(case):
-    return bool(case.get("faults")) or (case["env"].get("git") in _plan.GIT_HANDLED + _plan.GIT_UNHANDLED)
+    return bool(case.get("faults")) or "base_git" in case or (case["env"].get("git") in _plan.GIT_HANDLED + _plan.GIT_UNHANDLED)
 
 
 def make_faulty(plan, variant):
@@ -74,7 +74,12 @@ def signature(vclass, detail):
     if vclass in ("GEN_FAIL", "GEN_HANG", "HANG_UNDER_FAULT"):
         return "%s|%s|%s" % (vclass, detail.get("exc"), re.sub(r"\d+", "N", (detail.get("tb_tail") or "")[-100:]))
     if vclass in ("SILENT_FAULT", "HANDLED_FAULT_CHANGED_OUTPUT", "NONDETERMINISTIC_OUTPUT"):
-        kinds = sorted({"%s:%s" % (f.get("op"), f.get("kind") or f.get("errno")) for f in detail.get("delivered", [])})
+        dl = detail.get("delivered", [])
+        if vclass == "SILENT_FAULT":
+            # group by the faults the tool is *not* expected to absorb: short writes that happened
+            # to be delivered in the same run are not part of the root cause
+            dl = [f for f in dl if not (f.get("op") == "write" and f.get("kind") == "short")]
+        kinds = sorted({"%s:%s" % (f.get("op"), f.get("kind") or f.get("errno") or "") for f in dl})
         return "%s|%s|%s" % (vclass, ",".join(kinds), detail.get("oracle_class"))
     return vclass
 
